@@ -5,7 +5,6 @@ package main
 // that answer the hand's pending requests at quiescent points.
 
 import (
-	"encoding/json"
 	"errors"
 	"fmt"
 	"sort"
@@ -269,15 +268,15 @@ type TD struct {
 }
 
 func cloneTable(t *pt.Table) (*pt.Table, string) {
-	data, err := json.Marshal(t)
-	if err != nil {
-		panic(err)
+	return deepCopy(t), ""
+}
+
+// jsonOf renders a snapshot (lazily; most monitors never need it).
+func (s *Snap) Text() string {
+	if s.JSON == "" {
+		s.JSON, _ = s.T.GetJSON()
 	}
-	var c pt.Table
-	if err := json.Unmarshal(data, &c); err != nil {
-		panic(err)
-	}
-	return &c, string(data)
+	return s.JSON
 }
 
 func defaultCfg(seats int) TableCfg {
